@@ -16,14 +16,15 @@ files stored into / retrieved from the cache under (label, hash)); `TRepo.cacheO
 * FULL, for every history and every deterministic test semantics `outcome`:
   `C11_no_fail_reuse` (every results file — in plz-out and in the artifact cache — is a pass), `C11_cached_is_pass`, `C11_cached_only_if`,
   `C11_fail_not_stored`, `C11_no_result_runs` (a failing run is executed again).
-* `C11_outcome_eq_fresh`: incremental = fresh, CONDITIONAL on the runtime pre-image determining the runtime inputs
-  (plus C01's hypotheses for the build phase).
-* On the pinned tree that hypothesis is false: `RuntimeHash` does not write the names of the runtime files.
-  `C11_witness_stale_pass` is the kernel-checked history (a data dependency whose output is renamed, same
-  bytes) where the model reports a cached PASS and a fresh run errors — replayed on the real binary from
-  corpus/C11/known-*.ops.  `C11_outcome_eq_fresh_partial` states where the property does hold as coded:
-  whenever the names of a test's runtime files are determined by its runtime attributes (all data are source
-  files), given C08's and C09's statements; `C11_fixed_by_names` shows that writing the names closes the gap.
+* `C11_outcome_eq_fresh`: incremental = fresh for every history, every flag combination, with and without the
+  artifact cache — given only C08's statement for the (runtime) rule pre-image and C09's for the path pre-image
+  (whose violations stay known findings: unframed rule text, content-only directory hashes).  This rests on the
+  regenerated fact that `RuntimeHash` writes, per runtime file, its path hash AND its NUL-terminated destination
+  name (`facts_names`), i.e. on the repair of `runtime-hash-omits-file-names` (fix commit in /repo).
+* The defect as it was: `C11_old_witness_stale_pass` / `C11_old_witness_not_injective` are stated for the OLD fact
+  value (`hashesNames := false`): a data dependency whose output is renamed with the same bytes gave a cached PASS
+  where a fresh run errors.  `C11_renamed_output_detected` is the same history on the code as it is now.
+  `C11_fixed_by_names` is the generic reason.
 -/
 namespace PlzVerif.Props.C11
 set_option linter.unusedSectionVars false
@@ -184,42 +185,25 @@ theorem outcome_eq_fresh_on (P : A' → List (N × C) → Prop)
   show outcomes (testList _ _ _ _ _ _ _ _ _ _ _ _ _).2.2 = outcomes (testList _ _ _ _ _ _ _ _ _ _ _ _ _).2.2
   exact hL.trans (hE.trans hF.symm)
 
-/-- THE PROPERTY, conditional: if the runtime pre-image (as `RuntimeHash` writes it) determines the runtime
-    inputs — and the rule / path pre-images are injective as C01 needs for the build phase — then after ANY
-    history the outcome reported for every requested test by `plz test` (any flags) equals the outcome of a
-    fresh run of the same tree in an empty directory.
-    NOTE (audit): on the pinned tree the hypothesis `hRT` is FALSE already for identity pre-images
-    (`C11_witness_runtimeSer_not_injective`: `RuntimeHash` does not hash file names), so this theorem cannot be
-    instantiated on the code as it is; it describes the code once names are hashed.  The statement that applies
-    today is `C11_outcome_eq_fresh_partial`. -/
-theorem C11_outcome_eq_fresh (hR : Function.Injective ruleSer) (hP : Function.Injective pathSer)
-    (hRT : InjOn (G := G) TestCache.generatedFacts ruleSerRT pathSer (fun (_ : A') (_ : List (N × C)) => True))
-    (history : List (TOp K A F N C S H A' G (RStamp S' G N H))) (r : TRepo K A F N C A' G) (sel tsel : K → Bool) (fl : Flags)
-    (hwf : WFList sel [] r.repo.targets) (hdc : DataClosed r tsel (selKeys sel r.repo.targets)) :
-    outcomes (plzTest exec ruleSer pathSer ruleSerRT outcome r sel tsel fl
-        (hist exec ruleSer pathSer ruleSerRT outcome history TState.empty)).2.2 =
-    outcomes (fresh exec ruleSer pathSer ruleSerRT outcome r sel tsel) :=
-  outcome_eq_fresh_on exec ruleSer pathSer ruleSerRT outcome (fun (_ : A') (_ : List (N × C)) => True) hR hP hRT history r sel tsel fl
-    (admHist_true _ _ _ _ _ _ _ _ _ _ _) (fun _ _ _ _ _ _ _ => trivial) hwf hdc
+theorem facts_names : TestCache.generatedFacts.hashesNames = true := by decide
 
-/-- Where the property holds AS CODED (names not hashed): when the names under which a test sees its runtime
-    files are determined by its runtime attributes — true whenever all data entries are source files or
-    directories, whose names `ruleHash(runtime = true)` writes — given C08's statement for the runtime rule
-    pre-image and C09's for the path pre-image. -/
-theorem C11_outcome_eq_fresh_partial (names : A' → List N)
-    (hR : Function.Injective ruleSer) (hP : Function.Injective pathSer) (hRTr : Function.Injective ruleSerRT)
+/-- THE PROPERTY: after ANY history (plz test / plz build of arbitrary intermediate trees with any flags, removal of
+    outputs and results files, cache evictions; artifact cache configured or not) the outcome reported for every
+    requested test by `plz test` equals the outcome of a fresh run of the same tree in an empty directory —
+    for every deterministic test semantics, given that the rule pre-images (build-time and runtime) and the path
+    pre-image are injective (the statements of C08 and C09; the build phase needs them as in C01 / C02).
+    The runtime pre-image itself needs no further hypothesis: names are hashed (`facts_names`). -/
+theorem C11_outcome_eq_fresh (hR : Function.Injective ruleSer) (hP : Function.Injective pathSer)
+    (hRTr : Function.Injective ruleSerRT)
     (history : List (TOp K A F N C S H A' G (RStamp S' G N H))) (r : TRepo K A F N C A' G) (sel tsel : K → Bool) (fl : Flags)
-    (hadm : AdmHist TestCache.generatedFacts ruleSerRT pathSer outcome Build.generatedFacts (mvCoded Build.generatedFacts pathSer) rsCoded exec ruleSer
-      (fun a f => f.map Prod.fst = names a) (history ++ [.test r sel tsel fl]) TState.empty)
-    (hadmF : Adm (fun a f => f.map Prod.fst = names a) r tsel
-      (buildPhase pathSer Build.generatedFacts (mvCoded Build.generatedFacts pathSer) rsCoded exec ruleSer r sel (fun _ => none) (fun _ => none)).1 r.repo.targets)
     (hwf : WFList sel [] r.repo.targets) (hdc : DataClosed r tsel (selKeys sel r.repo.targets)) :
     outcomes (plzTest exec ruleSer pathSer ruleSerRT outcome r sel tsel fl
         (hist exec ruleSer pathSer ruleSerRT outcome history TState.empty)).2.2 =
     outcomes (fresh exec ruleSer pathSer ruleSerRT outcome r sel tsel) :=
-  outcome_eq_fresh_on exec ruleSer pathSer ruleSerRT outcome _ hR hP
-    (injOn_of_names TestCache.generatedFacts ruleSerRT pathSer facts_rule facts_files hRTr hP names)
-    history r sel tsel fl hadm hadmF hwf hdc
+  outcome_eq_fresh_on exec ruleSer pathSer ruleSerRT outcome (fun (_ : A') (_ : List (N × C)) => True) hR hP
+    (injOn_of_hashesNames TestCache.generatedFacts ruleSerRT pathSer facts_rule facts_files facts_names hRTr hP)
+    history r sel tsel fl
+    (admHist_true _ _ _ _ _ _ _ _ _ _ _) (fun _ _ _ _ _ _ _ => trivial) hwf hdc
 
 /-- The fix: with the entry names written into the digest (`hashesNames`), the hypothesis of
     `C11_outcome_eq_fresh` follows from C08's and C09's statements alone. -/
@@ -228,12 +212,15 @@ theorem C11_fixed_by_names (fx : TestCache.Facts) (hr : fx.hashesRule = true) (h
     InjOn (G := G) fx ruleSerRT pathSer (fun (_ : A') (_ : List (N × C)) => True) :=
   injOn_of_hashesNames fx ruleSerRT pathSer hr hf hn hRTr hP
 
-/-! ### Witnesses: the hypothesis fails on the pinned tree -/
+/-! ### Witnesses -/
 
-/-- As coded the runtime pre-image does not determine the runtime inputs, even with injective (here: identity)
-    rule and path pre-images: the same file under two names. -/
-theorem C11_witness_runtimeSer_not_injective :
-    ¬ InjOn (G := Nat) (A' := Nat) (N := Nat) (C := Nat) TestCache.generatedFacts id id (fun (_ : Nat) (_ : List (Nat × Nat)) => True) := by
+/-- The facts as they were before the repair: entry names not hashed. -/
+def oldFacts : TestCache.Facts := { TestCache.generatedFacts with hashesNames := false }
+
+/-- With the OLD fact value the runtime pre-image did not determine the runtime inputs, even with injective (here:
+    identity) rule and path pre-images: the same file under two names. -/
+theorem C11_old_witness_not_injective :
+    ¬ InjOn (G := Nat) (A' := Nat) (N := Nat) (C := Nat) oldFacts id id (fun (_ : Nat) (_ : List (Nat × Nat)) => True) := by
   intro h
   have := h 0 0 0 [(1, 7)] 0 [(2, 7)] trivial trivial (by decide)
   exact absurd this.2 (by decide)
@@ -252,18 +239,30 @@ def tree (outName : Nat) : TRepo Nat Nat Nat Nat Nat Nat Nat :=
     ownName := id, cfg := 0, cacheOn := false }
 def all : Nat → Bool := fun _ => true
 abbrev T := TState Nat Nat Nat Nat Nat (RStamp Nat Nat Nat Nat)
-def run (r : TRepo Nat Nat Nat Nat Nat Nat Nat) (st : T) :=
-  testAll TestCache.generatedFacts id id outcomeW Build.generatedFacts (mvCoded Build.generatedFacts id) rsCoded execW id r all (fun k => k == 1) {} st
+def runWith (fx : TestCache.Facts) (r : TRepo Nat Nat Nat Nat Nat Nat Nat) (st : T) :=
+  testAll fx id id outcomeW Build.generatedFacts (mvCoded Build.generatedFacts id) rsCoded execW id r all (fun k => k == 1) {} st
+def run := runWith TestCache.generatedFacts
 def st1 : T := (run (tree 1) TState.empty).1
+def st1old : T := (runWith oldFacts (tree 1) TState.empty).1
 end Witness
 
 open Witness in
-/-- The dependency's output is renamed 1 → 2 with the same bytes. The first `plz test` passes and stores the
-    result; after the rename the incremental `plz test` reports a CACHED PASS without running anything, while a
-    fresh run of the same tree ERRORS. -/
-theorem C11_witness_stale_pass :
+/-- OLD fact value (names not hashed): the dependency's output is renamed 1 → 2 with the same bytes. The first
+    `plz test` passes and stores the result; after the rename the incremental `plz test` reported a CACHED PASS
+    without running anything, while a fresh run of the same tree ERRORS. -/
+theorem C11_old_witness_stale_pass :
+    (runWith oldFacts (tree 1) TState.empty).2.2 = [(1, some ⟨.pass, false, 1⟩)] ∧
+    (runWith oldFacts (tree 2) st1old).2.2 = [(1, some ⟨.pass, true, 0⟩)] ∧
+    freshRun oldFacts id id outcomeW Build.generatedFacts (mvCoded Build.generatedFacts id) rsCoded execW id (tree 2) all (fun k => k == 1)
+      = [(1, some ⟨.error, false, 1⟩)] := by
+  decide
+
+open Witness in
+/-- The same history on the code as it is: the rename changes the runtime hash, the test is executed and errors,
+    as in a fresh run. -/
+theorem C11_renamed_output_detected :
     (run (tree 1) TState.empty).2.2 = [(1, some ⟨.pass, false, 1⟩)] ∧
-    (run (tree 2) st1).2.2 = [(1, some ⟨.pass, true, 0⟩)] ∧
+    (run (tree 2) st1).2.2 = [(1, some ⟨.error, false, 1⟩)] ∧
     freshRun TestCache.generatedFacts id id outcomeW Build.generatedFacts (mvCoded Build.generatedFacts id) rsCoded execW id (tree 2) all (fun k => k == 1)
       = [(1, some ⟨.error, false, 1⟩)] := by
   decide
@@ -301,11 +300,12 @@ open Witness2 in
 theorem C11_witness_unframed_data_names : ruleBad [[1, 2], [3]] = ruleBad [[1], [2, 3]] ∧ [[1, 2], [3]] ≠ [[1], [2, 3]] := by
   decide
 
-/-- `no_test_output` is written into no hash: in the concrete end-to-end instance two test definitions that differ
+/-- As long as `no_test_output` is written into no hash (`ruleSerRTWith false`; the concrete instance follows the
+    regenerated fact `hashesNoOutput`): in the concrete end-to-end instance two test definitions that differ
     only in that attribute have the same runtime rule pre-image and different outcomes on the same (empty) runtime
-    directory — `ruleSerRT` is not injective, so the hypothesis of `C11_outcome_eq_fresh_partial` fails too. -/
+    directory — `ruleSerRT` is not injective, so `hRTr` of `C11_outcome_eq_fresh` fails for it. -/
 theorem C11_witness_no_test_output_not_hashed :
-    ∃ a b : PlzVerif.TestE2E.TAttrs, PlzVerif.TestE2E.ruleSerRT a = PlzVerif.TestE2E.ruleSerRT b ∧
+    ∃ a b : PlzVerif.TestE2E.TAttrs, PlzVerif.TestE2E.ruleSerRTWith false a = PlzVerif.TestE2E.ruleSerRTWith false b ∧
       PlzVerif.TestE2E.outcomeT a [] = .pass ∧ PlzVerif.TestE2E.outcomeT b [] = .error :=
   ⟨{ b := { label := "//p:t", cmd := .cat, srcs := [], out := "" }, kind := .puretest, data := [], tcmd := .tt,
      noOutput := true, writes := false },
